@@ -1,20 +1,198 @@
-(** C04 — proofs (work in progress). *)
+(** C04 — part 1: [chunk], the cache path ([chunks], [snapshot]) and file rolling. *)
+From Coq Require Import ZifyBool.
 From Verif Require Import Base.Prelude Model.C37 Proofs.C37 Model.C04.
 Local Open Scope Z_scope.
 
 Section Proofs.
   Context {V : Type}.
+  Notation arr := (arr V).
+  Notation blk := (blk V).
+  Implicit Types (l vs mv : arr).
 
-  Lemma chunk_size_bound (size : nat) (dst : list (blk V)) mv :
-    (0 < size)%nat ->
+  (** *** sortedness of pieces *)
+  Lemma ssorted_app_inv l1 l2 : ssorted (l1 ++ l2) ->
+    ssorted l1 /\ ssorted l2 /\ (forall p q, In p l1 -> In q l2 -> tm p < tm q).
+  Proof.
+    induction l1 as [|x r IH]; cbn.
+    - intros H. repeat split; auto. intros p q [].
+    - intros [H1 H2]. apply IH in H2 as [H2 [H3 H4]]. apply Forall_app in H1 as [H1a H1b].
+      repeat split; auto. intros p q [<-|Hp] Hq.
+      + rewrite Forall_forall in H1b. auto.
+      + auto.
+  Qed.
+
+  Lemma ssorted_firstn n l : ssorted l -> ssorted (firstn n l).
+  Proof. intro H. rewrite <- (firstn_skipn n l) in H. apply ssorted_app_inv in H. tauto. Qed.
+
+  Lemma ssorted_skipn n l : ssorted l -> ssorted (skipn n l).
+  Proof. intro H. rewrite <- (firstn_skipn n l) in H. apply ssorted_app_inv in H. tauto. Qed.
+
+  Lemma firstn_lt_skipn n l : ssorted l ->
+    forall p q, In p (firstn n l) -> In q (skipn n l) -> tm p < tm q.
+  Proof. intro H. rewrite <- (firstn_skipn n l) in H. apply ssorted_app_inv in H. tauto. Qed.
+
+  Lemma wf_mkout l : l <> [] -> ssorted l -> wf_blk (mkout l) = true.
+  Proof.
+    intros Hne Hs. unfold wf_blk, wf_block, mkout. cbn.
+    destruct l as [|p r]; [congruence|]. cbn [nonempty].
+    rewrite (proj2 (ssorted_b_spec (p :: r)) Hs). rewrite !Z.eqb_refl. reflexivity.
+  Qed.
+
+  (** *** [chunk] *)
+  Lemma chunk_size_bound (size : nat) (dst : list blk) mv :
     forall b, In b (fst (chunk size dst mv)) -> In b dst \/ (length (b_vals b) <= size)%nat.
   Proof.
-    intros Hs b. unfold chunk.
+    intros b. unfold chunk.
     destruct (size <? length mv)%nat eqn:E1.
     - cbn [fst]. rewrite in_app_iff. intros [H|[<-|[]]]; [auto|right]. cbn. rewrite firstn_length. lia.
     - destruct (0 <? length mv)%nat eqn:E2; cbn [fst].
       + rewrite in_app_iff. intros [H|[<-|[]]]; [auto|right]. cbn.
         apply Nat.ltb_ge in E1. exact E1.
       + auto.
+  Qed.
+
+  (** [chunk] moves a prefix of the pending values into one new block *)
+  Lemma chunk_content (size : nat) (dst : list blk) mv :
+    concat (map b_vals (fst (chunk size dst mv))) ++ snd (chunk size dst mv)
+    = concat (map b_vals dst) ++ mv.
+  Proof.
+    unfold chunk. destruct (size <? length mv)%nat.
+    - cbn [fst snd]. rewrite map_app, concat_app. cbn. rewrite app_nil_r, <- app_assoc.
+      rewrite firstn_skipn. reflexivity.
+    - destruct (0 <? length mv)%nat eqn:E; cbn [fst snd].
+      + rewrite map_app, concat_app. cbn. rewrite !app_nil_r. reflexivity.
+      + destruct mv; [reflexivity|discriminate].
+  Qed.
+
+  (** *** [chunks] (cacheKeyIterator.encode) *)
+  Lemma chunks_fuel_content (size : nat) : (0 < size)%nat -> forall fuel vs,
+    (length vs <= fuel)%nat -> concat (map b_vals (chunks_fuel fuel size vs)) = vs.
+  Proof.
+    intro Hs. induction fuel as [|f IH]; intros vs Hl.
+    - destruct vs; [reflexivity|cbn in Hl; lia].
+    - destruct vs as [|p r]; [reflexivity|]. cbn [chunks_fuel map concat mkout b_vals].
+      rewrite IH; [apply firstn_skipn|]. rewrite skipn_length. cbn [length] in *. lia.
+  Qed.
+
+  Lemma chunks_fuel_size (size : nat) : forall fuel vs b,
+    In b (chunks_fuel fuel size vs) -> (length (b_vals b) <= size)%nat.
+  Proof.
+    induction fuel as [|f IH]; intros vs b; [intros []|]. destruct vs as [|p r]; [intros []|].
+    cbn [chunks_fuel]. intros [<-|H]; [|eauto]. cbn. rewrite firstn_length. lia.
+  Qed.
+
+  Lemma chunks_fuel_wf (size : nat) : (0 < size)%nat -> forall fuel vs, ssorted vs ->
+    forallb wf_blk (chunks_fuel fuel size vs) = true.
+  Proof.
+    intro Hs. induction fuel as [|f IH]; intros vs Hv; [reflexivity|].
+    destruct vs as [|p r]; [reflexivity|]. cbn [chunks_fuel forallb].
+    rewrite IH by (apply ssorted_skipn; exact Hv). rewrite andb_true_r.
+    apply wf_mkout; [|apply ssorted_firstn; exact Hv].
+    destruct size; [lia|discriminate].
+  Qed.
+
+  Lemma chunks_fuel_ordered (size : nat) : (0 < size)%nat -> forall fuel vs prev, ssorted vs ->
+    Forall (fun q => prev < tm q) vs -> ordered_from prev (chunks_fuel fuel size vs) = true.
+  Proof.
+    intro Hs. induction fuel as [|f IH]; intros vs prev Hv Hp; [reflexivity|].
+    destruct vs as [|p r] eqn:E; [reflexivity|]. rewrite <- E in *.
+    cbn [chunks_fuel]. rewrite E at 1. cbn [ordered_from mkout b_min b_max].
+    apply andb_true_iff. split.
+    - assert (Hm : min_time (firstn size vs) = tm p).
+      { rewrite E. destruct size; [lia|reflexivity]. }
+      rewrite Hm. apply Z.ltb_lt. rewrite E in Hp. inversion Hp; auto.
+    - apply IH; [apply ssorted_skipn; exact Hv|].
+      apply Forall_forall. intros q Hq.
+      assert (Hne : firstn size vs <> []) by (rewrite E; destruct size; [lia|discriminate]).
+      destruct (max_time_in _ Hne) as [p' [Hp1 Hp2]]. rewrite <- Hp2.
+      eapply firstn_lt_skipn; eauto.
+  Qed.
+
+  Lemma chunks_ordered (size : nat) vs : (0 < size)%nat -> ssorted vs -> ordered (chunks size vs) = true.
+  Proof.
+    intros Hs Hv. unfold chunks. destruct vs as [|p r] eqn:E; [reflexivity|]. rewrite <- E in *.
+    assert (Hl : length vs = S (length r)) by (rewrite E; reflexivity). rewrite Hl.
+    cbn [chunks_fuel]. rewrite E at 1. cbn [ordered mkout b_max].
+    apply chunks_fuel_ordered; [exact Hs|apply ssorted_skipn; exact Hv|].
+    apply Forall_forall. intros q Hq.
+    assert (Hne : firstn size vs <> []) by (rewrite E; destruct size; [lia|discriminate]).
+    destruct (max_time_in _ Hne) as [p' [Hp1 Hp2]]. rewrite <- Hp2.
+    eapply firstn_lt_skipn; eauto.
+  Qed.
+
+  (** *** rolling: the files are a split of the written sequence into non-empty pieces *)
+  Lemma roll_go_concat {A} (limit : nat) : forall (sq cur : list (N * A)) ckey cnt,
+    concat (roll_go limit cur ckey cnt sq) = rev cur ++ sq.
+  Proof.
+    induction sq as [|[k b] r IH]; intros cur ckey cnt; cbn [roll_go].
+    - destruct cur; cbn; rewrite ?app_nil_r; reflexivity.
+    - match goal with |- context [(limit <=? ?c)%nat] => destruct (limit <=? c)%nat end.
+      + cbn [concat]. rewrite IH. cbn [rev app]. rewrite <- !app_assoc. reflexivity.
+      + rewrite IH. cbn [rev]. rewrite <- app_assoc. reflexivity.
+  Qed.
+
+  Lemma roll_concat {A} (limit : nat) (sq : list (N * A)) : concat (roll limit sq) = sq.
+  Proof. unfold roll. rewrite roll_go_concat. reflexivity. Qed.
+
+  Lemma roll_go_nonempty {A} (limit : nat) : forall (sq cur : list (N * A)) ckey cnt,
+    Forall (fun f => f <> []) (roll_go limit cur ckey cnt sq).
+  Proof.
+    induction sq as [|[k b] r IH]; intros cur ckey cnt; cbn [roll_go].
+    - destruct cur as [|x c]; constructor; auto. cbn. intro H. apply app_eq_nil in H as [_ H]. discriminate.
+    - match goal with |- context [(limit <=? ?c)%nat] => destruct (limit <=? c)%nat end.
+      + constructor; [|apply IH]. cbn. intro H. apply app_eq_nil in H as [_ H]. discriminate.
+      + apply IH.
+  Qed.
+
+  (** *** per-key projections of a written sequence *)
+  Lemma seq_points_app {A} k (s1 s2 : list (N * A)) :
+    seq_points k (s1 ++ s2) = seq_points k s1 ++ seq_points k s2.
+  Proof. unfold seq_points. rewrite filter_app, map_app. reflexivity. Qed.
+
+  Lemma seq_points_pair_same {A} k (l : list A) : seq_points k (map (pair k) l) = l.
+  Proof.
+    unfold seq_points. induction l as [|x r IH]; [reflexivity|]. cbn. rewrite N.eqb_refl. cbn.
+    f_equal. exact IH.
+  Qed.
+
+  Lemma seq_points_pair_other {A} k k' (l : list A) : k' <> k -> seq_points k (map (pair k') l) = [].
+  Proof.
+    intro Hk. unfold seq_points. induction l as [|x r IH]; [reflexivity|]. cbn.
+    destruct (N.eqb_spec k' k); [congruence|]. exact IH.
+  Qed.
+
+  Lemma out_content_app k (s1 s2 : out_seq V) :
+    out_content k (s1 ++ s2) = out_content k s1 ++ out_content k s2.
+  Proof. unfold out_content. rewrite seq_points_app, map_app, concat_app. reflexivity. Qed.
+
+  (** *** the cache path *)
+  Definition cache_seq (size : nat) (cache : list (N * arr)) : out_seq V :=
+    concat (map (fun e => map (pair (fst e)) (chunks size (vals_dedup (snd e)))) cache).
+
+  Lemma snapshot_is_cache_seq size cache : concat (snapshot size cache) = cache_seq size cache.
+  Proof. unfold snapshot. apply roll_concat. Qed.
+
+  Lemma cache_seq_content (size : nat) (Hs : (0 < size)%nat) k : forall cache,
+    NoDup (map fst cache) ->
+    out_content k (cache_seq size cache)
+    = last_wins_sorted (concat (map (fun e => if (fst e =? k)%N then snd e else []) cache)).
+  Proof.
+    induction cache as [|[k' vs] r IH]; intro Hnd; [reflexivity|].
+    inversion Hnd as [|? ? Hni Hnd']; subst.
+    assert (Hstep : cache_seq size ((k', vs) :: r)
+                    = map (pair k') (chunks size (vals_dedup vs)) ++ cache_seq size r) by reflexivity.
+    rewrite Hstep, out_content_app, IH by exact Hnd'. clear Hstep.
+    change (concat (map (fun e : N * arr => if (fst e =? k)%N then snd e else []) ((k', vs) :: r)))
+      with ((if (k' =? k)%N then vs else [])
+            ++ concat (map (fun e : N * arr => if (fst e =? k)%N then snd e else []) r)).
+    destruct (N.eqb_spec k' k) as [->|Hne].
+    - unfold out_content at 1. rewrite seq_points_pair_same.
+      unfold chunks. rewrite chunks_fuel_content by (auto; lia).
+      assert (Hnil : concat (map (fun e : N * arr => if (fst e =? k)%N then snd e else []) r) = []).
+      { clear -Hni. induction r as [|[k2 v2] r IH]; [reflexivity|]. cbn [map concat fst snd].
+        destruct (N.eqb_spec k2 k) as [->|_]; [exfalso; apply Hni; left; reflexivity|].
+        apply IH. intro H. apply Hni. right. exact H. }
+      Show. rewrite Hnil. cbn. rewrite !app_nil_r. apply dedup_last_wins.
+    - unfold out_content at 1. rewrite seq_points_pair_other by exact Hne. reflexivity.
   Qed.
 End Proofs.
